@@ -26,7 +26,7 @@ worker() {
     for c in $checks; do
       (cd "$D/verif" && VERIF_DIR="$D/verif" VERIF_REPO="$D/repo" timeout 2400 bin/vcheck run "$c" --tier quick --jobs "${PAR_JOBS:-6}" > "$D/out.txt" 2>&1); rc=$?
       sig=$(grep -v '^KNOWN' "$D/out.txt" | grep -m3 'signature:' | sed 's/ *signature: //' | tr '\n' ';' | tr '|' '/')
-      int=$(grep -m1 'INTERNAL' "$D/out.txt" | cut -c1-160 | tr '|' '/')
+      int=$(grep -m1 -A2 "INTERNAL" "$D/out.txt" | tr "\n" " " | cut -c1-1500 | tr '|' '/')
       echo "$label|$c|$rc|$sig$int" >> "$OUT"
     done
     git -C "$D/repo" checkout -q -- . ; git -C "$D/repo" clean -fdq
